@@ -8,6 +8,7 @@ package signappx
 //@   property C11
 //@   nopanic
 //@   requires c.ByExt != nil && c.ByOverride != nil
+//@   modifies map(c.ByExt), map(c.ByOverride)
 //@
 //@ func (*ContentTypes).Find
 //@   property C11
@@ -180,3 +181,26 @@ package signappx
 //@        tagN >= 5 && lastTag == "" && sip == appxSipInfo
 //@   on call authenticode.SignSip(_, _, _, _, _, _) ret (t, e): tsG = ite(e == nil, t, nil)
 //@   before call (*AppxDigest).addZipEntry(x, name, blob): assert @signature_member_is_the_marker_followed_by_the_new_signature x == i && name == appxSignature && tsG != nil && len(blob) == 4 + len(tsG.Raw)
+//@
+//@ func (*AppxDigest).writeBlockMap
+//@   property C05
+//@   standalone
+//@   requires 1 <= i.Hash && i.Hash <= 19
+//@   ghost bmG []byte = nil
+//@   ghost added bool = false
+//@   on call (*blockMap).Marshal(_) ret (b, e): bmG = b
+//@   before call (*AppxDigest).addZipEntry(x, name, blob): assert @the_marshalled_block_map_becomes_the_member x == i && name == appxBlockMap && sameslice(blob, bmG)
+//@   on call (*AppxDigest).addZipEntry(_, _, _) ret (e): added = (e == nil)
+//@   before call invoke hash.Hash.Write(_, p): assert @the_digest_in_the_signature_is_over_the_bytes_that_are_stored sameslice(p, bmG)
+//@
+//@ func (*AppxDigest).writeContentTypes
+//@   property C05
+//@   standalone
+//@   requires 1 <= i.Hash && i.Hash <= 19 && i.outz != nil && i.contentTypes != nil && i.contentTypes.ByExt != nil && i.contentTypes.ByOverride != nil
+//@   ghost ctG []byte = nil
+//@   ghost added bool = false
+//@   on call (*ContentTypes).Marshal(_) ret (b, e): ctG = b
+//@   before call (*AppxDigest).addZipEntry(x, name, blob): assert @the_marshalled_content_types_become_the_member x == i && name == appxContentTypes && sameslice(blob, ctG)
+//@   on call (*AppxDigest).addZipEntry(_, _, _) ret (e): added = (e == nil)
+//@   before call invoke hash.Hash.Write(_, p): assert @the_digest_in_the_signature_is_over_the_bytes_that_are_stored sameslice(p, ctG)
+//@   loop 0 sig "for _, f := range i.outz.File" invariant !added && ctG == nil && i.contentTypes != nil && i.contentTypes.ByExt != nil && i.contentTypes.ByOverride != nil && i.contentTypes == old(i.contentTypes)
